@@ -10,4 +10,4 @@ _orm.define(globals(), "C34", ("C34",), "identity",
             "merge is exercised by C45; gc-driven release of unreferenced objects by C48",
             weights={"requery": 5, "get": 6, "lazy": 4, "k_rename": 4, "rollback": 3, "begin_nested": 2, "sp_rollback": 2, "sp_commit": 1,
                      "expunge": 2, "add": 3, "refresh": 2, "expire": 2, "delete": 2, "populate_existing": 2, "merge": 3},
-            shape=_orm.txn_blocks)
+            shape=_orm.txn_blocks, fault_fn=_orm.hook_faults)
